@@ -374,6 +374,10 @@ def check_C10(ctx):
     engines(ctx, 'C10', ['EngineParallelMC_faults.cfg', 'EngineParallelMC_faults3.cfg'], ['EngineSerialMC_faults.cfg', 'EngineSerialMC_faults3.cfg'], ['C10'])
     rule = ctx_rule(ctx)
     scen = vt.tlc_generate(ctx, 'GenWire', 'C10', 0)
+    # request level: failing subsets, and cancellation while the end-to-end probes are being paced (GenRun!C15All): no goroutine of the
+    # request outlives the call, every handle closed exactly once
+    req = vt.tlc_generate(ctx, 'GenRun', 'C15', 0)
+    scen += [x for x in req if '/cancel/' in x['id'] or '/many/' in x['id']] + [x for x in req if '/cancel/' not in x['id'] and '/many/' not in x['id'] and x.get('faults')][ctx.seed % 7::7 if ctx.quick() else 1]
     wire_family(ctx, 'C10', scen, rule, nontrivial=lambda s, es: any(e['event'] == 'Fault' for e in es))
     ctx.extra['rule'] = rule + '; plus ' + (WIRE_RULE % 'C10All (the k-th call of every Source/Sink operation and constructor x error class, on every protocol entry point)') + '; non-trivial = the fault fired'
     vt.write_evidence(ctx, 'model_checking', ctx_rule(ctx), exhaustive=True)
